@@ -45,6 +45,31 @@ def program(params, stmts):
     return "\n".join(lines) + "\n", n_init
 
 
+MARK = 777777
+
+
+def program_multi(params, stmt_lists):
+    """one program with one block (init, statements, prints) per case; returns (src, n_init, block starts)"""
+    one, n_init = program(params, [])
+    lines = one.split("\n")
+    head_end = next(i for i, l in enumerate(lines) if l.startswith("  integer :: n, k"))
+    head, init = lines[:head_end + 1], lines[head_end + 1: head_end + 1 + _init_lines(params)]
+    prints = [l for l in lines if l.startswith("  print")]
+    body, starts, pos = [], [], 0
+    for j, stmts in enumerate(stmt_lists):
+        starts.append(pos)
+        body += init + ["  " + s for s in stmts] + [f"  print *, {MARK}, {j}"] + prints
+        pos += n_init + len(stmts) + 1
+    return "\n".join(head + body + ["end program p"]) + "\n", n_init, starts
+
+
+def _init_lines(params):
+    n = 0
+    for a, dims in ARRAYS.items():
+        n += 3 if len(dims) == 1 else 5
+    return n + len(SCALARS) + 2
+
+
 def gen_params(rng):
     return {"arr": {a: (rng.randint(1, 5), rng.randint(0, 6), rng.choice([5, 7]), rng.randint(1, 3)) for a in ARRAYS},
             "sc": {s: rng.randint(-3, 4) for s in SCALARS}, "n": rng.choice([3, 4, 5]), "k": rng.choice([1, 2])}
@@ -84,6 +109,62 @@ def pick(stmt, target):
     if target[0] == "index":
         return stmt.lhs.indices[target[1]]
     raise ValueError(target)
+
+
+def apply_at(psyir, routine, pos, tname, target):
+    """apply transformation `tname` to the target inside the statement routine.children[pos]"""
+    from psyclone.psyir import nodes as N
+    from psyclone.psyir.transformations import TransformationError
+    res = Applied()
+    res.routine = routine
+    stmt = routine.children[pos]
+    res.orig_stmt = stmt.copy()
+    before = set(s.name for s in routine.symbol_table.symbols)
+    tail = len(routine.children) - (pos + 1)
+    try:
+        if target[0] == "refs":
+            t = trans(tname)
+            for ref in stmt.walk(N.Reference):
+                try:
+                    t.apply(ref)
+                except TransformationError:
+                    pass
+        else:
+            trans(tname).apply(pick(stmt, target))
+    except TransformationError as err:
+        res.refused = str(err.value)
+        return res
+    res.new_names = sorted(set(s.name for s in routine.symbol_table.symbols) - before)
+    res.new_stmts = routine.children[pos: len(routine.children) - tail]
+    return res
+
+
+def parse(src):
+    from psyclone.psyir.frontend.fortran import FortranReader
+    from psyclone.psyir import nodes as N
+    psyir = FortranReader().psyir_from_source(src)
+    return psyir, psyir.walk(N.Routine)[0]
+
+
+def write(psyir):
+    from psyclone.psyir.backend.fortran import FortranWriter
+    return FortranWriter()(psyir)
+
+
+def split_blocks(out):
+    """program output -> {block number: list of values}"""
+    vals, blocks, cur = parse_vals(out), {}, None
+    i = 0
+    while i < len(vals):
+        if vals[i] == float(MARK) and i + 1 < len(vals):
+            cur = int(vals[i + 1])
+            blocks[cur] = []
+            i += 2
+            continue
+        if cur is not None:
+            blocks[cur].append(vals[i])
+        i += 1
+    return blocks
 
 
 def apply_real(src, n_init, tname, target, nstmts=1):
@@ -292,14 +373,16 @@ def parse_vals(out):
     return vals
 
 
-def run_pairs(pairs, workers=8):
+def run_pairs(pairs, workers=8, checks=True, raw=False):
     """pairs: list of (orig_src, new_src) -> list of (verdict, orig_out, new_out);
     verdict in same / differ / skip"""
     def one(src):
-        return minif.gfortran_run(src, flags=("-fcheck=bounds",))
+        return minif.gfortran_run(src, flags=("-fcheck=bounds",) if checks else ())
     flat_srcs = [s for p in pairs for s in p]
     with concurrent.futures.ThreadPoolExecutor(max_workers=workers) as pool:
         outs = list(pool.map(one, flat_srcs))
+    if raw:
+        return [(outs[2 * i], outs[2 * i + 1]) for i in range(len(pairs))]
     res = []
     for i in range(len(pairs)):
         (s0, o0), (s1, o1) = outs[2 * i], outs[2 * i + 1]
